@@ -127,3 +127,34 @@ Definition rd_frac : rd fraction := fun s =>
   | ev :: has :: lot :: amt :: t => Some ({| f_ev := ev; f_lot := if has =? 1 then Some lot else None; f_amt := amt |}, t)
   | _ => None
   end.
+
+(** ---------- parser encoding *)
+From RP2V Require Import Model.Parser.
+
+Definition rd_pair : rd (Z * Z) := fun s => match s with a :: b :: t => Some ((a, b), t) | _ => None end.
+Definition rd_cell : rd cell := fun s =>
+  match s with
+  | 0 :: t => Some (CEmpty, t)
+  | 1 :: t => match rd_str t with Some (x, t') => Some (CStr x, t') | None => None end
+  | 2 :: n :: d :: t => Some (CNum n d, t)
+  | 3 :: b :: t => Some (CBool (b =? 1), t)
+  | _ => None
+  end.
+Definition rd_tsent : rd (str * ts_res) := fun s =>
+  match rd_str s with
+  | None => None
+  | Some (x, k :: u :: o :: t) =>
+    Some ((x, if k =? 2 then TsAware {| utc_us := u; off_s := o |} else if k =? 1 then TsNaive else TsBad), t)
+  | _ => None
+  end.
+
+Definition enc_intx (a : intx) : list Z :=
+  [i_row a; utc_us (i_ts a); off_s (i_ts a); i_exch a; i_holder a; ttype_code (i_type a); i_spot a; i_crypto_in a; i_crypto_fee a]
+  ++ enc_dec (i_fiat_in_no_fee a) ++ enc_dec (i_fiat_in_with_fee a) ++ enc_dec (i_fiat_fee a).
+Definition enc_outtx (a : outtx) : list Z :=
+  [o_row a; utc_us (o_ts a); off_s (o_ts a); o_exch a; o_holder a; ttype_code (o_type a); o_spot a;
+   o_crypto_out_no_fee a; o_crypto_fee a; o_crypto_out_with_fee a]
+  ++ enc_dec (o_fiat_out_no_fee a) ++ enc_dec (o_fiat_fee a) ++ enc_dec (o_fiat_out_with_fee a).
+Definition enc_intratx (a : intratx) : list Z :=
+  [x_row a; utc_us (x_ts a); off_s (x_ts a); x_from_exch a; x_from_holder a; x_to_exch a; x_to_holder a; x_spot a;
+   x_crypto_sent a; x_crypto_received a; x_crypto_fee a] ++ enc_dec (x_fiat_fee a).
